@@ -68,6 +68,10 @@ func runIsolation(id int, c *isoCase) isoLine {
 		for _, av := range m.AVP { // echo the request's AVPs
 			a.AddAVP(av)
 		}
+		if m.Header.EndToEndID == 0xA5A5A5A5 {
+			go a.WriteTo(dc) // answered from a worker goroutine
+			return
+		}
 		a.WriteTo(dc)
 	}
 	var handler diam.Handler
@@ -169,6 +173,37 @@ func runIsolation(id int, c *isoCase) isoLine {
 					req[16], req[17], req[18], req[19] = 0xDE, 0xAD, 0xDE, 0xAD
 					conns[k].Feed(req)
 				case "bad":
+					conns[k].Feed(cnBad())
+					awaitReport()
+				case "shortlen": // a header that declares a message shorter than a header
+					sh := mkReq(k, i)[:20]
+					sh[1], sh[2], sh[3] = 0, 0, 12
+					conns[k].Feed(sh)
+					awaitReport()
+				case "avplen4": // a message whose AVP declares a length shorter than an AVP header
+					al := mkReq(k, i)
+					al[20+5], al[20+6], al[20+7] = 0, 0, 4
+					conns[k].Feed(al)
+					awaitReport()
+				case "badw": // undecodable input while a worker goroutine of this connection is stuck in a Write
+					inWrite := make(chan struct{}, 1)
+					mck := conns[k]
+					mck.WaitReaderBlocked(2 * time.Second) // the earlier requests have been answered
+					mck.OnWrite = func(int, []byte) memnet.WriteOutcome {
+						select {
+						case inWrite <- struct{}{}:
+						default:
+						}
+						mck.WaitClosed(5 * time.Second) // the peer has stopped reading
+						return memnet.WriteOutcome{N: 0, Err: memnet.ErrClosed}
+					}
+					aw := mkReq(k, i)
+					aw[16], aw[17], aw[18], aw[19] = 0xA5, 0xA5, 0xA5, 0xA5
+					conns[k].Feed(aw)
+					select {
+					case <-inWrite:
+					case <-time.After(2 * time.Second):
+					}
 					conns[k].Feed(cnBad())
 					awaitReport()
 				case "badbody": // a valid header whose body cannot be decoded (AVP length beyond the body)
